@@ -31,11 +31,11 @@ type sysgen struct {
 func systems() []sysgen {
 	full := func(r *rand.Rand) string { return gen.SemFull(r, true) }
 	return []sysgen{
-		{"Default", semver.DefaultSystem, gen.SameLower(gen.NPMRange, " "), full, "", 3},
-		{"NPM", semver.NPM, gen.SameLower(gen.NPMRange, " "), full, "", 3},
-		{"Cargo", semver.Cargo, gen.SameLower(gen.CargoReq, ", "), full, "", 3},
+		{"Default", semver.DefaultSystem, gen.SmallEdges(gen.SameLower(gen.NPMRange, " ")), full, "", 3},
+		{"NPM", semver.NPM, gen.SmallEdges(gen.SameLower(gen.NPMRange, " ")), full, "", 3},
+		{"Cargo", semver.Cargo, gen.SmallEdges(gen.SameLower(gen.CargoReq, ", ")), full, "", 3},
 		{"Go", semver.Go, func(r *rand.Rand) string { return "v" + gen.SemFull(r, true) }, func(r *rand.Rand) string { return "v" + gen.SemFull(r, true) }, "v", 3},
-		{"NuGet", semver.NuGet, gen.NuGetRange, gen.NuGet, "", 4},
+		{"NuGet", semver.NuGet, gen.SmallEdges(gen.NuGetRange), gen.NuGet, "", 4},
 	}
 }
 
